@@ -10,3 +10,7 @@ Proof.
   destruct (Z.ltb_spec (rp_min p) 1), (Z.ltb_spec 255 (rp_max p)), (Z.ltb_spec (rp_max p) (rp_min p)),
            (Z.leb_spec 1 (rp_min p)), (Z.leb_spec (rp_max p) 255), (Z.leb_spec (rp_min p) (rp_max p)); cbn; try reflexivity; lia.
 Qed.
+
+(** RunTraceroute: the destination port handed to every run is the model's [dest_port] (the default when 0) *)
+Theorem go_destination_port_is_model p : go_destination_port (rp_port p) = dest_port p.
+Proof. unfold go_destination_port, dest_port, default_port. destruct (rp_port p =? 0); reflexivity. Qed.
